@@ -89,7 +89,17 @@ def soundRecovery (raw : Bytes) (cid : Int) (res : Bytes × Tx × Bytes) : Bool 
     let (ri, si, vi) := if is1559 then (10, 11, 9) else (7, 8, 6)
     let r := fromBE (itemBytes (g ri)); let s := fromBE (itemBytes (g si))
     let z := Prim.keccak256 payload
-    let sigMatches := addrOfRecover 27 r s z == some addr || addrOfRecover 28 r s z == some addr
+    -- the parity the input's V encodes, when V is one of the standard forms (27/28, 35+2·chainId+p, 0/1 for
+    -- type 2); for any other V that the code accepts (known finding C05-vmod256) either candidate key is allowed
+    let vIn := fromBE (itemBytes (g vi))
+    let parity : Option Nat :=
+      if is1559 then (if vIn ≤ 1 then some vIn else none)
+      else if vIn == 27 || vIn == 28 then some (vIn - 27)
+      else if vIn == 35 + 2 * cid.natAbs || vIn == 36 + 2 * cid.natAbs then some (vIn - 35 - 2 * cid.natAbs)
+      else none
+    let sigMatches := match parity with
+      | some p => addrOfRecover (27 + p) r s z == some addr
+      | none => addrOfRecover 27 r s z == some addr || addrOfRecover 28 r s z == some addr
     let expected :=
       if is1559 then Spec.Tx.preimage1559 f cid.toNat (g 8)
       else
@@ -109,6 +119,16 @@ def opTxRecover (j : Json) : Json :=
     | .ok res => Json.bool (soundRecovery raw cid res)
     | _ => Json.null
   Json.mkObj [("model", recJson r), ("sound", sound)]
+
+/-- the property's verdict on an arbitrary claimed result (the implementation's, when it differs from the model's) -/
+def opTxJudge (j : Json) : Json :=
+  let raw := Json.getHex! j "hex"
+  let cid := getInt! j "cid"
+  let res := (j.getObjVal? "result").toOption.getD Json.null
+  let addr := Json.getHex! res "addr"
+  let tx := txOfJson ((res.getObjVal? "tx").toOption.getD Json.null)
+  let payload := Json.getHex! res "payload"
+  Json.mkObj [("sound", soundRecovery raw cid (addr, tx, payload))]
 
 def opTxDecode1559 (j : Json) : Json :=
   let raw := Json.getHex! j "hex"
